@@ -41,6 +41,17 @@ def run(ctx):
         sg = [path_sig(p)[1] for p in nonpanic(walk(f))]
         ctx.check("C17-R1", "SessionId::%s" % nm, sg == [want], "SessionId::%s changed: %s" % (nm, sg), where(f))
     shared.qstream_algebra(ctx, "C17-R1")
+    shared.id_conversions(ctx, "C17-R1")
+    shared.id_accessors(ctx, "C17-R1")
+    shared.forwarders(ctx, "C17-R1", {
+        r"^wtransport_proto::ids::StreamId::into_u64$": (r"^return VarInt::into_inner\(self\.0\)$", []),
+        r"^wtransport_proto::ids::StreamId::into_varint$": (r"^return self\.0$", []),
+        r"^wtransport_proto::ids::QStreamId::into_u64$": (r"^return VarInt::into_inner\(self\.0\)$", []),
+        r"^wtransport_proto::ids::<impl std::convert::From<wtransport_proto::ids::StreamId> for wtransport_proto::varint::VarInt>::from$": (r"^return stream_id\.0$", []),
+        r"^wtransport_proto::varint::<impl std::convert::From<wtransport_proto::varint::VarInt> for u64>::from$": (r"^return value\.0$", []),
+        r"^wtransport_proto::stream::types::WT::new$": (r"^return WT\(session_id\)$", []),
+        r"^wtransport_proto::stream::(uniremote|unilocal)::<impl .*types::H3>>::session_id$": (r"^return StreamHeader::session_id\(Option::expect\(H3::stream_header\(self\.stage\),'[^']*'\)\)$", []),
+    }, "id conversions")
     f = A.fn("wtransport::driver::streams::session::<impl wtransport::driver::streams::Stream<(wtransport::driver::streams::QuicSendStream, wtransport::driver::streams::QuicRecvStream), wtransport_proto::stream::Stream<wtransport_proto::stream::types::Bi, wtransport_proto::stream::types::Session>>>::session_id")
     sg = [path_sig(p)[1] for p in nonpanic(walk(f))]
     ctx.check("C17-R1", "StreamSession::session_id from the QUIC id", len(sg) == 1 and re.match(r"^return Result::expect\(SessionId::try_from_session_stream\(<impl .*>::id\(self\)\),", sg[0]) is not None,
